@@ -197,6 +197,10 @@ fn worker(args: &[String]) -> i32 {
         if max_seconds > 0 && started.elapsed().as_secs() >= max_seconds {
             break;
         }
+        // enough violations to report: the verdict is known, stop spending time on this chunk
+        if max_violations > 0 && rep.violations.len() as u64 >= max_violations {
+            break;
+        }
         beat.store(index, std::sync::atomic::Ordering::SeqCst);
         let mut rng = Rng::split(seed, &property, index);
         let scn = gen_scenario(&property, &mut rng);
